@@ -34,11 +34,23 @@ OPT_ALTS = ["", " ", "\n"]
 
 
 def case_alts(word):
+    """UPPER, Title first (used by the double deviations), then every other case assignment of the letters
+    (all 2^n masks for words of <= 5 letters, alternating masks beyond)"""
     alts = []
-    for f in (str.lower, str.upper, str.title):
+    for f in (str.upper, str.title, str.lower):
         v = f(word)
         if v != word and v not in alts:
             alts.append(v)
+    if len(word) <= 5:
+        for mask in product((0, 1), repeat=len(word)):
+            v = "".join(c.upper() if m else c.lower() for c, m in zip(word, mask))
+            if v != word and v not in alts:
+                alts.append(v)
+    else:
+        for start in (0, 1):
+            v = "".join(c.upper() if (i + start) % 2 else c.lower() for i, c in enumerate(word))
+            if v != word and v not in alts:
+                alts.append(v)
     return alts
 
 
@@ -239,6 +251,14 @@ def corpus():
         T.binop("Eq", T.lst(T.Int(1)), T.lst(T.Int(1), T.lst(T.Int(2), T.Int(3)))),
     ]
     out += [(t, False) for t in extras]
+    b = typed.F("b")
+    boolean_extras = [
+        T.binop("Eq", b, T.Bool(True)), T.binop("Eq", T.Bool(True), b), T.binop("NotEq", b, T.Bool(False)), T.binop("Eq", T.call("contains", s, T.Str("a")), T.Bool(True)),
+        T.unop("Not", T.binop("Eq", b, T.Bool(True))), T.binop("And", T.binop("Eq", b, T.Bool(True)), T.binop("Eq", n, T.NULL)),
+        T.binop("Or", T.binop("Eq", b, T.Bool(False)), T.binop("Eq", T.Bool(True), T.call("startswith", s, T.Str("a")))), T.binop("Eq", b, T.NULL),
+        T.binop("In", b, T.lst(T.Bool(True))), T.binop("In", b, T.lst(T.Bool(False), T.Bool(True))),
+    ]
+    out += [(t, True) for t in boolean_extras]
     return out
 
 
@@ -262,7 +282,7 @@ def run(ctx):
     corp = corpus()
     if ctx.quick:
         # fixed core: every k=1 term and all extras; k=2 terms: block VERIF_SEED mod 4, single deviations + doubles
-        k1 = [c for c in corp if typed.value_subterms and sum(1 for _ in typed.value_subterms(c[0])) <= 4 or not c[1]]
+        k1 = [c for c in corp if sum(1 for _ in typed.value_subterms(c[0])) <= 4 or not c[1] or any(st[0] == "Boolean" for st in typed.value_subterms(c[0]))]
         rest = [c for c in corp if c not in k1]
         B = 4
         chosen = k1 + [c for i, c in enumerate(rest) if i % B == ctx.seed % B]
